@@ -289,3 +289,98 @@ def r17_5(ctx):
             ok = ib != ic and sorted(v.tag for v in reg.values()) == ["cb_b", "cb_c"] and reg.get(ib) == Sym("cb_b") and reg.get(ic) == Sym("cb_c")
             ctx.require(ok, f"registry:{label}", f"{label}: add a -> {ia!r}, add b -> {ib!r}, remove a, add c -> {ic!r}; registry now {reg!r} (must hold exactly b and c "
                         "under different identifiers)", func=add, trace=p.trace())
+
+
+@rule("R17.6", ["C17", "C14"], "T-FUN", floor=4)
+def r17_6(ctx):
+    """Life cycle of the stack-status listeners on one EZSP object (built by its own initialiser), as histories of
+    waits, events, cancellations and event-loop turns: a waiter is completed by the first event of *its* status and by
+    no event of another status; a waiter that registers while an earlier waiter of the same status has been completed
+    but not yet cleaned up (same loop turn) still receives the next event; a cancelled waiter that is still listed
+    neither breaks the fan-out nor hides the waiters after it; and when all waits have ended no listener remains."""
+    from ..px import _LazyGen
+    from .util import FutureSim
+
+    repo = ctx.repo
+    es, sl = statuses(ctx)
+    cls = repo.cls(EZ, "EZSP")
+    init = cls.method("__init__")
+    wait = cls.method("wait_for_stack_status")
+    cb = cls.method("stack_status_callback")
+    ctx.fn(wait)
+    ctx.fn(cb)
+    sim = FutureSim()
+    px = PX(repo, models=sim.models() + [("hash", lambda px_, t, a, k, fr: 7)], inline=same_class(extra=("from_ember_status",)))
+    px.inline.root = wait
+    UP, DOWN = sl["NETWORK_UP"], sl["NETWORK_DOWN"]
+    legacy = {"NETWORK_UP": es["NETWORK_UP"], "NETWORK_DOWN": es["NETWORK_DOWN"]}
+
+    def run(script):
+        """script: list of steps; returns (log of observations, leftover listener count)."""
+        def entry():
+            sim.reset()
+            me = self_obj(cls, {})
+            px.top_frame = None
+            px.call_function(init, me, [Sym("device_config")], {}, None)
+            waits, obs = {}, []
+            for step in script:
+                op = step[0]
+                if op == "enter":
+                    g = _LazyGen(px, wait, me, [step[2]], {}, None)
+                    waits[step[1]] = (g, next(g))
+                elif op == "exit":
+                    g, f_ = waits[step[1]]
+                    try:
+                        next(g)
+                    except StopIteration:
+                        pass
+                elif op == "event":
+                    px.call_function(cb, me, ["stackStatusHandler", [legacy[step[1].name]]], {}, None)
+                elif op == "cancel":
+                    st = sim.state[waits[step[1]][1].tag]
+                    if not st["done"]:
+                        st["cancelled"] = True
+                        sim._finish(st)
+                elif op == "loop":
+                    sim.run_loop(px)
+                elif op == "expect":
+                    f_ = waits[step[1]][1]
+                    obs.append((step[1], sim.is_done(f_) and not sim.state[f_.tag]["cancelled"], sim.result(f_)))
+            reg = me.fields.get("_stack_status_listeners")
+            left = None
+            if isinstance(reg, dict):
+                left = sum(len(v) for v in reg.values() if isinstance(v, list))
+            return obs, left
+
+        paths = px._run(entry)
+        if len(paths) != 1:
+            raise AnalysisError(f"listener scenario: {len(paths)} paths")
+        return paths[0]
+
+    scenarios = {
+        "other-status-first": ([("enter", "A", UP), ("event", DOWN), ("expect", "A"), ("event", UP), ("expect", "A"), ("loop",), ("exit", "A"), ("loop",)],
+                               [("A", False, None), ("A", True, UP)]),
+        "down-waiter-not-woken-by-up": ([("enter", "A", DOWN), ("event", UP), ("expect", "A"), ("event", DOWN), ("expect", "A"), ("loop",), ("exit", "A"), ("loop",)],
+                                        [("A", False, None), ("A", True, DOWN)]),
+        "register-before-cleanup": ([("enter", "A", UP), ("event", UP), ("expect", "A"), ("enter", "B", UP), ("loop",), ("exit", "A"), ("loop",), ("event", UP),
+                                     ("expect", "B"), ("loop",), ("exit", "B"), ("loop",)], [("A", True, UP), ("B", True, UP)]),
+        "cancelled-waiter-listed": ([("enter", "A", UP), ("enter", "B", UP), ("cancel", "A"), ("event", UP), ("expect", "B"), ("loop",), ("exit", "A"), ("exit", "B"), ("loop",)],
+                                    [("B", True, UP)]),
+        "two-statuses-interleaved": ([("enter", "A", UP), ("enter", "D", DOWN), ("event", DOWN), ("expect", "A"), ("expect", "D"), ("event", UP), ("expect", "A"), ("loop",),
+                                      ("exit", "A"), ("exit", "D"), ("loop",)], [("A", False, None), ("D", True, DOWN), ("A", True, UP)]),
+    }
+    for name, (script, want) in scenarios.items():
+        p = run(script)
+        ctx.paths += 1
+        if p.terminal != "return":
+            ctx.violation(f"listeners:{name}", f"history {name}: raises {p.value!r}", func=wait, trace=p.trace(30))
+            continue
+        obs, left = p.value
+        got = [(n, d, (r if d else None)) for n, d, r in obs]
+        wantn = [(n, d, (r if d else None)) for n, d, r in want]
+        ok = [(n, d, getattr(r, "name", r)) for n, d, r in got] == [(n, d, getattr(r, "name", r)) for n, d, r in wantn]
+        ctx.require(ok, f"listeners:{name}", f"history {name}: waiters observed as {[(n, d, getattr(r, 'name', r)) for n, d, r in got]}, expected "
+                    f"{[(n, d, getattr(r, 'name', r)) for n, d, r in wantn]} (waiter, completed by its event, with status)", func=wait, trace=p.trace(30))
+        if left is None:
+            raise AnalysisError("the listener registry is not a dict of lists after the initialiser")
+        ctx.require(left == 0, f"listeners:{name}:leak", f"history {name}: {left} listener(s) remain registered after every wait has ended", func=wait, trace=p.trace(30))
